@@ -152,4 +152,198 @@ theorem reach_inv {m : InstMsg} {s : State} (h : instantiate m = .ok s) (ops : L
   | nil => exact hi
   | cons op rest ih => exact ih (step_inv op.1 op.2.1 op.2.2 hi)
 
+/-! ## Supply and balance deltas per message kind -/
+
+/-- **C01, delta clause**: what a successful call does to the supply and to the balances, for each of
+the ten message kinds.  `mint` raises the supply and exactly the recipient's balance by `amt`;
+`burn` / `burnFrom` lower the supply and exactly the sender's / owner's balance by `amt`; every other
+kind (transfers and sends, direct or through an allowance, minter and allowance updates) leaves the
+supply unchanged.  Holds for every state (the invariant is not needed). -/
+theorem supply_delta {s s' : State} {blk : Block} {snd : Addr} {msg : Msg} {out : List Out}
+    (h : execute s blk snd msg = .ok (s', out)) :
+    match msg with
+    | .mint to amt =>
+        s'.supply = s.supply + amt ∧ bal s' to.text = bal s to.text + amt
+          ∧ ∀ x, x ≠ to.text → s'.balances.get? x = s.balances.get? x
+    | .burn amt =>
+        s'.supply + amt = s.supply ∧ bal s' snd + amt = bal s snd
+          ∧ ∀ x, x ≠ snd → s'.balances.get? x = s.balances.get? x
+    | .burnFrom o amt =>
+        s'.supply + amt = s.supply ∧ bal s' o.text + amt = bal s o.text
+          ∧ ∀ x, x ≠ o.text → s'.balances.get? x = s.balances.get? x
+    | _ => s'.supply = s.supply := by
+  cases msg <;> simp only [execute] at h <;> simp only []
+  case transfer to amt =>
+    simp [execTransfer] at h
+    obtain ⟨_, b1, h1, b2, h2, rfl, _⟩ := h
+    rfl
+  case burn amt =>
+    simp [execBurn] at h
+    obtain ⟨b1, h1, hle, rfl, _⟩ := h
+    obtain ⟨_, hb, hf⟩ := debit_sum h1
+    exact ⟨by simp; omega, by simpa [bal] using hb, hf⟩
+  case send c amt p =>
+    simp [execSend] at h
+    obtain ⟨_, b1, h1, b2, h2, rfl, _⟩ := h
+    rfl
+  case mint to amt =>
+    unfold execMint at h
+    split at h
+    · simp at h
+    · simp at h
+      obtain ⟨_, hle, _, _, b, h1, rfl, _⟩ := h
+      obtain ⟨_, hb, hf⟩ := credit_sum h1
+      exact ⟨by simp, by simpa [bal] using hb, hf⟩
+  case updateMinter new =>
+    unfold execUpdateMinter at h
+    split at h
+    · simp at h
+    · split at h
+      · simp at h; obtain ⟨_, rfl, _⟩ := h; rfl
+      · simp at h; obtain ⟨_, _, rfl, _⟩ := h; rfl
+  case increaseAllowance sp amt e =>
+    simp [execIncreaseAllowance] at h
+    obtain ⟨_, _, a1, _, a2, _, rfl, _⟩ := h
+    rfl
+  case decreaseAllowance sp amt e =>
+    unfold execDecreaseAllowance at h
+    simp at h
+    obtain ⟨_, _, h⟩ := h
+    split at h
+    · simp at h
+    · split at h
+      · simp at h; obtain ⟨e', _, rfl, _⟩ := h; rfl
+      · simp at h; obtain ⟨rfl, _⟩ := h; rfl
+  case transferFrom o to amt =>
+    simp [execTransferFrom] at h
+    obtain ⟨_, _, s1, hd, b1, h1, b2, h2, rfl, _⟩ := h
+    exact (deduct_frame hd).2.1
+  case burnFrom o amt =>
+    simp [execBurnFrom] at h
+    obtain ⟨_, s1, hd, b1, h1, hle, rfl, _⟩ := h
+    obtain ⟨e1, e2, _⟩ := deduct_frame hd
+    rw [e1] at h1; rw [e2] at hle
+    obtain ⟨_, hb, hf⟩ := debit_sum h1
+    exact ⟨by simp; omega, by simpa [bal] using hb, hf⟩
+  case sendFrom o c amt p =>
+    simp [execSendFrom] at h
+    obtain ⟨_, _, s1, hd, b1, h1, b2, h2, rfl, _⟩ := h
+    exact (deduct_frame hd).2.1
+
+/-! ## The unchecked `+` of the credit step cannot panic -/
+
+/-- **C01, bonus**: under the invariant, the `credit` (`balance + amount`, which panics on overflow
+in the Rust code) after a successful `debit` of the same amount can never fail: what was debited
+plus what any account holds is at most the supply, which fits `Uint128`. -/
+theorem credit_cannot_overflow {s : State} {a r : Addr} {amt : Nat} {b1 : AMap Addr Nat}
+    (hi : Inv s) (h : debit s.balances a amt = .ok b1) : ∃ b2, credit b1 r amt = .ok b2 := by
+  obtain ⟨hsum, _, _⟩ := debit_sum h
+  have := AMap.get?_le_sum b1 r
+  obtain ⟨h1, h2⟩ := hi
+  refine ⟨b1.set r ((b1.get? r).getD 0 + amt), ?_⟩
+  simp [credit]
+  omega
+
+/-- The same for the `*From` handlers: `deduct_allowance` does not touch balances or supply, so the
+credit after `deduct` + `debit` cannot fail either. -/
+theorem credit_cannot_overflow_from {s s1 : State} {blk : Block} {o sp r : Addr} {amt : Nat} {b1 : AMap Addr Nat}
+    (hi : Inv s) (hd : deduct s blk o sp amt = .ok s1) (h : debit s1.balances o amt = .ok b1) :
+    ∃ b2, credit b1 r amt = .ok b2 := by
+  obtain ⟨e1, e2, _⟩ := deduct_frame hd
+  exact credit_cannot_overflow (s := s1) (by unfold Inv at *; rw [e1, e2]; exact hi) h
+
+/-- Handler level: a `transfer` to a valid address fails only for lack of funds. -/
+theorem transfer_ok_iff {s : State} {snd : Addr} {to : AddrArg} {amt : Nat} (hi : Inv s) :
+    (∃ r, execTransfer s snd to amt = .ok r) ↔ (to.valid = true ∧ amt ≤ bal s snd) := by
+  constructor
+  · rintro ⟨r, h⟩
+    simp [execTransfer, debit] at h
+    exact ⟨h.1, by simpa [bal] using h.2.1⟩
+  · rintro ⟨hv, hle⟩
+    have hd : debit s.balances snd amt = .ok (s.balances.set snd ((s.balances.get? snd).getD 0 - amt)) := by
+      simp [debit]; simpa [bal] using hle
+    obtain ⟨b2, h2⟩ := credit_cannot_overflow (r := to.text) hi hd
+    exact ⟨({ s with balances := b2 }, []), by simp [execTransfer, hv, hd, h2]⟩
+
+/-- Handler level: a `send` to a valid address fails only for lack of funds. -/
+theorem send_ok_iff {s : State} {snd : Addr} {c : AddrArg} {amt : Nat} {p : String} (hi : Inv s) :
+    (∃ r, execSend s snd c amt p = .ok r) ↔ (c.valid = true ∧ amt ≤ bal s snd) := by
+  constructor
+  · rintro ⟨r, h⟩
+    simp [execSend, debit] at h
+    exact ⟨h.1, by simpa [bal] using h.2.1⟩
+  · rintro ⟨hv, hle⟩
+    have hd : debit s.balances snd amt = .ok (s.balances.set snd ((s.balances.get? snd).getD 0 - amt)) := by
+      simp [debit]; simpa [bal] using hle
+    obtain ⟨b2, h2⟩ := credit_cannot_overflow (r := c.text) hi hd
+    exact ⟨({ s with balances := b2 }, [⟨c.text, snd, amt, p⟩]), by simp [execSend, hv, hd, h2]⟩
+
+/-- Handler level: once the allowance was deducted and the owner debited, `transferFrom` succeeds. -/
+theorem transferFrom_credit_ok {s s1 : State} {blk : Block} {snd : Addr} {o to : AddrArg} {amt : Nat}
+    {b1 : AMap Addr Nat} (hi : Inv s) (hto : to.valid = true) (ho : o.valid = true)
+    (hd : deduct s blk o.text snd amt = .ok s1) (h : debit s1.balances o.text amt = .ok b1) :
+    ∃ r, execTransferFrom s blk snd o to amt = .ok r := by
+  obtain ⟨b2, h2⟩ := credit_cannot_overflow_from (r := to.text) hi hd h
+  exact ⟨({ s1 with balances := b2 }, []), by simp [execTransferFrom, hto, ho, hd, h, h2]⟩
+
+/-- Handler level: once the allowance was deducted and the owner debited, `sendFrom` succeeds. -/
+theorem sendFrom_credit_ok {s s1 : State} {blk : Block} {snd : Addr} {o c : AddrArg} {amt : Nat} {p : String}
+    {b1 : AMap Addr Nat} (hi : Inv s) (hc : c.valid = true) (ho : o.valid = true)
+    (hd : deduct s blk o.text snd amt = .ok s1) (h : debit s1.balances o.text amt = .ok b1) :
+    ∃ r, execSendFrom s blk snd o c amt p = .ok r := by
+  obtain ⟨b2, h2⟩ := credit_cannot_overflow_from (r := c.text) hi hd h
+  exact ⟨({ s1 with balances := b2 }, [⟨c.text, snd, amt, p⟩]), by simp [execSendFrom, hc, ho, hd, h, h2]⟩
+
+/-! ## Failed calls -/
+
+/-- **C01, rollback clause**: a call that fails leaves the state exactly as it was (this is the
+definition of `step`: the runtime discards the writes of a failing transaction). -/
+theorem failed_call_changes_nothing {s : State} {blk : Block} {snd : Addr} {msg : Msg} {e : String}
+    (h : execute s blk snd msg = .error e) : step s blk snd msg = s := by
+  simp [step, h]
+
+/-! ## Non-vacuity: the hypotheses are satisfiable on a concrete, non-trivial history -/
+
+/-- An instantiate message with two funded accounts, an empty account and a capped minter. -/
+def exInst : InstMsg :=
+  { name := "Token", symbol := "TKN", decimals := 6,
+    initial := [(⟨true, "alice"⟩, 100), (⟨true, "bob"⟩, 25), (⟨true, "carol"⟩, 0)],
+    mint := some (⟨true, "minter"⟩, some 1000) }
+
+def exState : State :=
+  { supply := 125, mint := some ⟨"minter", some 1000⟩,
+    balances := [("alice", 100), ("bob", 25), ("carol", 0)],
+    allow := [], allowSp := [], version := ⟨CONTRACT_NAME, 2, 0, 0⟩ }
+
+def exBlk : Block := ⟨100, 5000⟩
+
+/-- transfer, mint, allowance grant, draw through the allowance, burn, self-transfer, and two failing
+calls (overdraft, mint by a stranger). -/
+def exOps : List (Block × Addr × Msg) :=
+  [ (exBlk, "alice", .transfer ⟨true, "bob"⟩ 40),
+    (exBlk, "minter", .mint ⟨true, "dave"⟩ 500),
+    (exBlk, "alice", .increaseAllowance ⟨true, "bob"⟩ 30 none),
+    (exBlk, "bob", .transferFrom ⟨true, "alice"⟩ ⟨true, "carol"⟩ 30),
+    (exBlk, "bob", .burn 5),
+    (exBlk, "dave", .transfer ⟨true, "dave"⟩ 500),
+    (exBlk, "carol", .transfer ⟨true, "bob"⟩ 31),
+    (exBlk, "bob", .mint ⟨true, "bob"⟩ 1) ]
+
+/-- `reach_inv`'s hypothesis holds for `exInst`: it is accepted, with the expected state. -/
+example : instantiate exInst = .ok exState := by rfl
+
+/-- The history really moves tokens: supply 125 → 620, four non-zero balances, and the invariant's
+two sides are both 620. -/
+example : (run exState exOps).supply = 620 ∧ AMap.sum (run exState exOps).balances = 620
+    ∧ (run exState exOps).balances = [("alice", 30), ("bob", 60), ("carol", 30), ("dave", 500)] := by
+  decide
+
+/-- The two failing calls of the history do fail (and the others succeed). -/
+example : (execute (run exState (exOps.take 6)) exBlk "carol" (.transfer ⟨true, "bob"⟩ 31)).isOk = false
+    ∧ (execute (run exState (exOps.take 6)) exBlk "bob" (.mint ⟨true, "bob"⟩ 1)).isOk = false
+    ∧ (execute exState exBlk "alice" (.transfer ⟨true, "bob"⟩ 40)).isOk = true := by
+  decide
+
+example : Inv (run exState exOps) := reach_inv (m := exInst) rfl exOps
+
 end CwPlus.Props.C01
